@@ -52,6 +52,24 @@ pub assume_specification<T, A: std::alloc::Allocator>[ std::collections::VecDequ
 pub assume_specification<T, A: std::alloc::Allocator>[ std::collections::VecDeque::<T, A>::back ](v: &std::collections::VecDeque<T, A>) -> (r: Option<&T>)
   ensures v@.len() == 0 ==> r is None, v@.len() > 0 ==> r == Some(&v@[v@.len() - 1]);
 
+// R9i: `E.drain(..)` that is consumed completely — assumed std contract: it yields all elements in order
+// and leaves E empty
+pub trait DrainAll<T> {
+  fn drain_all_(&mut self) -> Vec<T>;
+}
+impl<T> DrainAll<T> for Vec<T> {
+  #[verifier::external_body]
+  fn drain_all_(&mut self) -> (r: Vec<T>)
+    ensures r@ == old(self)@, final(self)@ == Seq::<T>::empty(),
+  { unimplemented!() }
+}
+impl<T> DrainAll<T> for std::collections::VecDeque<T> {
+  #[verifier::external_body]
+  fn drain_all_(&mut self) -> (r: Vec<T>)
+    ensures r@ == old(self)@, final(self)@ == Seq::<T>::empty(),
+  { unimplemented!() }
+}
+
 // ---- notifications ----------------------------------------------------------------------------
 pub enum Ev<Item, Err> { Next(Item), Error(Err), Complete }
 
